@@ -42,6 +42,9 @@ def plan(tier, seed):
         t += wp.enum_tasks(3, 4, "all", "all", seed)
         t += wp.enum_tasks(4, 32, "all", "all", seed)
         t += wp.enum_tasks(5, 64, 1, 3, seed)
+        # a uniform 3% sample of ALL 4,922,775 six-qubit groups in canonical (RREF) generators - a distribution that the
+        # class-stratified members do not produce
+        t += wp.enum_tasks(6, 255, 1, 1, seed, frac=0.03)
         t += wp.member_tasks(5, 10, 16, seed, plain_graph_every=7)
         t += wp.member_tasks(6, 20, 96, seed, plain_graph_every=7)
     for n, cnt in ((4, 16), (5, 16), (6, 32)):
